@@ -3,10 +3,12 @@
 //!   slacharness gen <stream> <n> <seed>     protocol lines for a stream on stdout
 //!   slacharness run                          stdin lines → answers of the real crate (one per line, flushed)
 //!   slacharness oracle                       stdin lines → answers of a Rust-side reference (streams that have one)
+mod call;
 mod codec;
 mod env;
 mod gen;
 mod lang;
+mod laws;
 mod tree;
 mod numrun;
 mod oracle;
@@ -30,6 +32,16 @@ fn gen_stream(stream: &str, n: u64, seed: u64) {
             for len in 1..=(n as usize) { for i in 0..32u64.pow(len as u32) { writeln!(w, "scan {}", hex(&lang::frag_seq(i, len))).unwrap(); } } }
         "scan" => for _ in 0..n { writeln!(w, "scan {}", hex(&lang::gen_text(&mut r))).unwrap(); },
         "compile" => for _ in 0..n { writeln!(w, "compile {}", hex(&lang::gen_text(&mut r))).unwrap(); },
+        "compiledeep" => for _ in 0..n {
+            let depth = 1 + r.usize(64);
+            let mut open = String::new(); let mut close = String::new();
+            for _ in 0..depth { match r.below(7) { 0 | 1 => { open.push('('); close.insert(0, ')'); } 2 => { open.push('['); close.insert(0, ']'); }
+                3 => { open.push_str("f("); close.insert(0, ')'); } 4 => open.push_str("not "), 5 => open.push('-'), _ => { open.push_str("(1+"); close.insert(0, ')'); } } }
+            let mut t = format!("{}{}{}", open, r.pick(&["1", "a", "'s'", "", "true"]), close);
+            match r.below(6) { 0 => { let k = r.usize(t.chars().count() + 1); t = t.chars().take(k).collect(); }     // truncation
+                1 => { t = format!("{} {}", t, (0..r.below(800)).map(|_| *r.pick(&["+ 1", "* a", "and b", "= 2", "- -1", "or not c", "< 3", "div 2"])).collect::<Vec<_>>().join(" ")); }
+                2 => { t = close.clone() + &t; } _ => {} }
+            writeln!(w, "compile {}", hex(&t)).unwrap(); },
         "rr" => for _ in 0..n { writeln!(w, "rr {}", hex(&lang::gen_text(&mut r))).unwrap(); },
         "lay" => for _ in 0..n { let (a, b) = lang::gen_layout_pair(&mut r); writeln!(w, "lay {} {}", hex(&a), hex(&b)).unwrap(); },
         "parsekinds" => { let kinds = lang::tok_kinds(); let k = kinds.len() as u64;
@@ -45,10 +57,62 @@ fn gen_stream(stream: &str, n: u64, seed: u64) {
             let ill = r.chance(1, 4); let e = if r.chance(1, 2) { tree::gen_opt_tree(&mut r, depth, ill) } else { gen::gen_tree(&mut r, depth, ill) }; writeln!(w, "chkbool {} {}", d.show(), show_expr(&e)).unwrap(); },
         "json" => for _ in 0..n { let depth = r.below(4) as u32; let e = match r.below(3) { 0 => lang::gen_src_tree(&mut r, depth), 1 => tree::gen_opt_tree(&mut r, depth, true), _ => gen::gen_tree(&mut r, depth, true) };
             writeln!(w, "json {}", show_expr(&e)).unwrap(); },
+        // `call` / `call:<name>[,<name>…]`: n argument lists per selected builtin
+        st if st == "call" || st.starts_with("call:") || st == "rep" || st.starts_with("rep:") => {
+            let (kind, sel) = match st.split_once(':') { Some((k, s)) => (k, Some(s.split(',').map(|x| x.to_string()).collect::<Vec<_>>())), None => (st, None) };
+            let names: Vec<String> = call::builtin_names().into_iter().filter(|b| sel.as_ref().map_or(true, |s| s.contains(b))).collect();
+            for _ in 0..n { for name in &names { let prefix = if kind == "rep" { "rep 20".to_string() } else { "call".to_string() }; writeln!(w, "{}", call::gen_call_line(&mut r, name, &prefix)).unwrap(); } }
+        }
+        "ord" => for _ in 0..n { let a = gen::gen_val(&mut r, 2); let b = if r.chance(1, 6) { a.clone() } else { gen::gen_val(&mut r, 2) }; let c = if r.chance(1, 6) { b.clone() } else { gen::gen_val(&mut r, 2) };
+            writeln!(w, "ord {} {} {}", show_in(&a), show_in(&b), show_in(&c)).unwrap(); },
+        "sortlaw" => for _ in 0..n { let args = call::gen_args(&mut r, "sort"); if let Some(a @ slac::Value::Array(_)) = args.first() { writeln!(w, "sortlaw {}", show_in(a)).unwrap(); } },
         "env" => for _ in 0..n { let big = r.chance(1, 10); let len = 1 + r.usize(if big { 200 } else { 20 }); let wide = r.chance(1, 2); writeln!(w, "{}", tree::gen_env_line(&mut r, len, wide)).unwrap(); },
         "envex" => { let a = tree::env_alphabet().len() as u64; for len in 1..=(n as usize) { for i in 0..a.pow(len as u32) { writeln!(w, "{}", tree::env_exhaustive(i, len)).unwrap(); } } }
         _ => { eprintln!("unknown stream {stream}"); std::process::exit(2); }
     }
+}
+
+/// Dump Rust's Unicode character database (std) as Lean source: ranges of alphabetic / numeric / White_Space code
+/// points and the non-identity lower/upper case mappings.  Regenerate with
+/// `slacharness unicode-tables > /verif/lean/SlacModel/UnicodeTables.lean` when the Rust toolchain changes.
+fn unicode_tables() {
+    fn ranges(p: impl Fn(char) -> bool) -> Vec<(u32, u32)> {
+        let mut out: Vec<(u32, u32)> = vec![]; let mut start: Option<u32> = None;
+        for cp in 0..=0x110000u32 {
+            let on = char::from_u32(cp).map_or(false, |c| p(c));
+            match (on, start) { (true, None) => start = Some(cp), (false, Some(s)) => { out.push((s, cp - 1)); start = None; } _ => {} }
+        }
+        out
+    }
+    fn show_ranges(name: &str, r: &[(u32, u32)]) {
+        println!("def {} : Array (Nat × Nat) := #[", name);
+        for ch in r.chunks(8) { println!("  {},", ch.iter().map(|(a, b)| format!("({},{})", a, b)).collect::<Vec<_>>().join(", ")); }
+        println!("  (1114112,1114112)]\n");
+    }
+    println!("/-\n  SlacModel.UnicodeTables — GENERATED by `slacharness unicode-tables` from the Rust standard library's Unicode\n  tables (char::is_alphabetic, is_numeric, is_whitespace, to_lowercase, to_uppercase). Data, not logic.\n-/");
+    println!("set_option autoImplicit false\nset_option maxRecDepth 1000000\nnamespace Slac\nnamespace UnicodeTables\n");
+    show_ranges("alphabetic", &ranges(|c| c.is_alphabetic()));
+    show_ranges("numeric", &ranges(|c| c.is_numeric()));
+    show_ranges("whitespace", &ranges(|c| c.is_whitespace()));
+    for (name, f) in [("lowerMap", (|c: char| c.to_lowercase().collect::<Vec<char>>()) as fn(char) -> Vec<char>), ("upperMap", |c: char| c.to_uppercase().collect::<Vec<char>>())] {
+        println!("/-- (code point, mapped code points) for every character whose mapping is not the identity -/");
+        println!("def {} : Array (Nat × List Nat) := #[", name);
+        let mut items = vec![];
+        for cp in 0..0x110000u32 { if let Some(c) = char::from_u32(cp) { let m = f(c); if m != vec![c] { items.push(format!("({},[{}])", cp, m.iter().map(|x| (*x as u32).to_string()).collect::<Vec<_>>().join(","))); } } }
+        for ch in items.chunks(6) { println!("  {},", ch.join(", ")); }
+        println!("  (1114112,[])]\n");
+    }
+    // Final_Sigma needs Case_Ignorable and Cased, which std does not export: recover them by probing to_lowercase.
+    //   x ignorable:            "aΣxa" ↦ …σ…, "aΣx" ↦ …ς…      x cased (not ignorable): both σ      neither: both ς
+    let probe = |x: char| -> (bool, bool) {
+        let s1: String = ['a', 'Σ', x, 'a'].iter().collect(); let s2: String = ['a', 'Σ', x].iter().collect();
+        (s1.to_lowercase().chars().nth(1) == Some('σ'), s2.to_lowercase().chars().nth(1) == Some('σ'))
+    };
+    println!("/-- Case_Ignorable (recovered by probing `str::to_lowercase` around Σ) -/");
+    show_ranges("caseIgnorable", &ranges(|c| c != 'Σ' && probe(c) == (true, false)));
+    println!("/-- Cased and not Case_Ignorable -/");
+    show_ranges("casedNotIgnorable", &ranges(|c| c == 'Σ' || probe(c) == (true, true)));
+    println!("end UnicodeTables\nend Slac");
 }
 
 fn main() {
@@ -68,6 +132,7 @@ fn main() {
                 writeln!(w, "{}", ans).unwrap(); w.flush().unwrap();
             }
         }
+        Some("unicode-tables") => unicode_tables(),
         Some("oracle") => {
             let stdin = std::io::stdin(); let out = std::io::stdout(); let mut w = std::io::BufWriter::new(out.lock());
             for line in stdin.lock().lines() { writeln!(w, "{}", oracle::oracle_line(&line.unwrap())).unwrap(); }
